@@ -43,7 +43,92 @@ def run(F, R, tier):
                 return sym
 
     # ---- (a) both modes reach run_buf; cmd_mode only guards the print of the last value ------------------------------------
-    Bm = M.Body(mn)
+    # main with the accessors of the command-line module read in place (everything of cliargs but the constructor): what main
+    # tests and hands on is then expressed over the fields of the value CliArgs::new() returned.  The fields are told
+    # apart by their types: the command text (Option<String>), the argument vector (Vec<String>), the -s flag (bool).
+    adt = F.adts.get("cliargs::CliArgs") or {}
+    by_ty = {}
+    for fd in ((adt.get("variants") or [{}])[0].get("fields") or []):
+        by_ty.setdefault(fd["ty"], []).append(fd["name"])
+    f_cmd = (by_ty.get("std::option::Option<std::string::String>") or [None])[0]
+    f_argv = (by_ty.get("std::vec::Vec<std::string::String>") or [None])[0]
+    if not R.anchor("CliArgs has one Option<String> (command) and one Vec<String> (arguments) field", f_cmd and f_argv and
+                    len(by_ty.get("std::option::Option<std::string::String>")) == 1 and len(by_ty.get("std::vec::Vec<std::string::String>")) == 1):
+        return
+    mn_i, _ = M.inline_calls(F, mn, lambda c: c.startswith("cliargs::") and not c.endswith("CliArgs::new") and len(F.fns[c]["mir"]["blocks"]) <= 120, depth=3)
+    Bm = M.Body(mn_i)
+
+    def agg_defs(l):
+        """[(block, variant name, operands)] when every definition of the local builds an enum value, else None"""
+        out_ = []
+        for (bi_, si_, node_) in Bm.defs().get(l, []):
+            rv_ = node_.get("rv") if si_ != "term" else None
+            if not (rv_ and rv_["k"] == "agg" and str(rv_.get("ak", "")).startswith("adt:")):
+                return None
+            out_.append((bi_, H.last(rv_["ak"]), rv_.get("ops") or []))
+        return out_
+
+    def origin2(sym, d=0):
+        """origin, also through the payload of an enum value that main matches on and exactly one place builds
+        (`RunMode::Script(path)` made by an accessor read in place)"""
+        sym = origin(sym)
+        if d < 4 and sym[0] == "field" and sym[1][0] == "downcast" and origin(sym[1][1])[0] in ("var", "tmp"):
+            o_ = origin(sym[1][1])
+            ds = agg_defs(o_[2] if o_[0] == "var" else o_[1])
+            hit = [x for x in (ds or []) if x[1] == sym[1][2]]
+            if len(hit) == 1 and str(sym[2]).isdigit() and int(sym[2]) < len(hit[0][2]):
+                return origin2(Bm.sym_op(hit[0][2][int(sym[2])], through_vars=True), d + 1)
+        return sym
+
+    def is_field(sym, fld):
+        o = origin2(sym)
+        return o[0] == "field" and o[2] == fld and origin(o[1])[0] == "call" and (origin(o[1])[1] or "").endswith("CliArgs::new")
+
+    def context(bi, d=0, seen=None):
+        """the blocks whose dominating conditions all held when block bi is reached: bi itself and, when bi is reached only
+        with an enum local holding one variant that exactly one place builds, that place (and so on)"""
+        seen = seen if seen is not None else set()
+        if bi in seen or d > 4:
+            return []
+        seen.add(bi)
+        out_ = [bi]
+        for sy, vals, dty in M.dominating_conditions(Bm, bi):
+            if sy[0] != "discr" or origin(sy[1])[0] not in ("var", "tmp"):
+                continue
+            o_ = origin(sy[1])
+            l_ = o_[2] if o_[0] == "var" else o_[1]
+            ds = agg_defs(l_)
+            ty_ = (Bm.local_ty(l_) or "").replace("'_ ", "")
+            vs_ = dict((n_, dv) for n_, dv in (F.enum_variants(ty_) or []))
+            if not ds or not vs_:
+                continue
+            allowed = [n_ for n_, dv in vs_.items() if (dv in vals if vals and vals[0] != "not" else dv not in vals[1])]
+            hit = [x for x in ds if x[1] in allowed]
+            if len(hit) == 1:
+                out_ += context(hit[0][0], d + 1, seen)
+        return out_
+
+    def conditions(bi):
+        cmd, argv_len = None, None        # True: Some / non-empty, False: None / empty
+        for cb in context(bi):
+            for sy, vals, dty in M.dominating_conditions(Bm, cb):
+                if sy[0] == "discr" and is_field(sy[1], f_cmd):
+                    some = vals == (1,) or vals == ("not", (0,))
+                    none = vals == (0,) or vals == ("not", (1,))
+                    cmd = True if some else (False if none else cmd)
+            cx = P.Ctx(Bm, F)
+            facts, _ = P.edge_facts(Bm, cx, cb)
+            for l, rel in P._Facts(facts, cx):
+                atoms = list(l.c.items())
+                if len(atoms) == 1 and re.search(r"CliArgs::new\(\)\.%s\)?\)*$" % re.escape(f_argv), atoms[0][0]):
+                    coef, k = atoms[0][1], l.k
+                    if rel == "==" and k == 0:
+                        argv_len = False
+                    elif rel == ">=" and coef == 1 and k <= -1:
+                        argv_len = True
+                    elif rel == "!=" and k == 0:
+                        argv_len = True
+        return cmd, argv_len
     sites = {}
     for bi, b in enumerate(Bm.blocks):
         t = b["term"]
@@ -52,26 +137,25 @@ def run(F, R, tier):
     disp_ok = all(len(sites.get(k, [])) == 1 for k in ("run_buf", "run_prompt", "run_file"))
     det = {k: len(v) for k, v in sites.items()}
     if disp_ok:
-        def ctx(bi):
-            cx = P.Ctx(Bm, F)
-            facts, variants = P.edge_facts(Bm, cx, bi)
-            return [(str(l), r) for l, r in P._Facts(facts, cx)], variants, [Bm.sym_op(a, through_vars=True) for a in Bm.blocks[bi]["term"]["args"]]
-        f_b, v_b, a_b = ctx(sites["run_buf"][0])
-        f_p, v_p, a_p = ctx(sites["run_prompt"][0])
-        f_f, v_f, a_f = ctx(sites["run_file"][0])
-        cmd_some = lambda vs: any("get_cmd" in v[0] and v[1] == "is" and v[2] == 1 for v in vs)
-        cmd_none = lambda vs: any("get_cmd" in v[0] and ((v[1] == "not" and 1 in v[2]) or (v[1] == "is" and v[2] == 0)) for v in vs)
-        argv = lambda sym: origin(sym)[0] == "call" and (origin(sym)[1] or "").endswith("CliArgs::get_args")
-        ARGS = M.show(a_p[0])
-        ok_buf = cmd_some(v_b) and len(a_b) == 4 and M.show(origin(a_b[0])).startswith("(CliArgs::get_cmd(") and argv(a_b[1]) and a_b[2] == ("const", True, "bool")
-        ok_prompt = cmd_none(v_p) and argv(a_p[0]) and ("+1·len(%s) +0" % ARGS, "==") in f_p
-        ok_file = cmd_none(v_f) and len(a_f) == 3 and argv(a_f[1]) and ("+1·len(%s) -1" % ARGS, ">=") in f_f and \
-            origin(a_f[0])[0] == "index" and argv(origin(a_f[0])[1]) and origin(a_f[0])[2] == ("const", 0, "usize")
-        det = "run_buf: %s; run_prompt: %s; run_file: %s" % (ok_buf, ok_prompt, ok_file)
+        args_of = lambda bi: [Bm.sym_op(a, through_vars=True) for a in Bm.blocks[bi]["term"]["args"]]
+        a_b, a_p, a_f = args_of(sites["run_buf"][0]), args_of(sites["run_prompt"][0]), args_of(sites["run_file"][0])
+        c_b, c_p, c_f = conditions(sites["run_buf"][0]), conditions(sites["run_prompt"][0]), conditions(sites["run_file"][0])
+
+        def cmd_payload(sym):
+            o = origin2(sym)
+            return o[0] == "field" and o[1][0] == "downcast" and o[1][2] == "Some" and is_field(o[1][1], f_cmd)
+
+        def argv0(sym):
+            o = origin2(sym)
+            return o[0] == "index" and is_field(o[1], f_argv) and o[2] == ("const", 0, "usize")
+        ok_buf = c_b[0] is True and len(a_b) == 4 and cmd_payload(a_b[0]) and is_field(a_b[1], f_argv) and a_b[2] == ("const", True, "bool")
+        ok_prompt = c_p == (False, False) and len(a_p) == 1 and is_field(a_p[0], f_argv)
+        ok_file = c_f == (False, True) and len(a_f) == 3 and is_field(a_f[1], f_argv) and argv0(a_f[0])
+        show_c = lambda c_: "command %s, arguments %s" % ({True: "given", False: "absent", None: "?"}[c_[0]], {True: "present", False: "none", None: "?"}[c_[1]])
         R.ob("mode-dispatch", "main: -c → run_buf(cmd, args, true, skip_pcap)", ok_buf,
-             "under %s with (%s)" % ([v for v in v_b if "get_cmd" in v[0]], ", ".join(M.show(x)[:50] for x in a_b)), F.loc(mn))
+             "reached with %s; called with (%s)" % (show_c(c_b), ", ".join(M.show(origin2(x))[:40] for x in a_b)), F.loc(mn))
         R.ob("mode-dispatch", "main: no arguments → run_prompt, else run_file(&args[0].clone(), args, skip_pcap)", ok_prompt and ok_file,
-             "run_prompt under %s; run_file(%s) under %s" % (f_p, ", ".join(M.show(x)[:40] for x in a_f), f_f), F.loc(mn))
+             "run_prompt reached with %s; run_file(%s) reached with %s" % (show_c(c_p), ", ".join(M.show(origin2(x))[:40] for x in a_f), show_c(c_f)), F.loc(mn))
     else:
         R.ob("mode-dispatch", "main calls run_buf, run_prompt and run_file once each", False, str(det), F.loc(mn))
     Bf = M.Body(rfile)
@@ -176,14 +260,25 @@ def run(F, R, tier):
     # ---- (c) argv provenance -----------------------------------------------------------------------------------------------------
     cn = F.fn("cliargs::CliArgs::new")
     if R.anchor("CliArgs::new", cn):
-        b = H.body_of(cn)
-        # the vector that becomes the `args` field of the returned CliArgs, and what is appended to it, in order
+        # (a `build_argv(script, rest)` helper of the module is read in place)
+        b = H.inline_helpers(F, H.body_of(cn), max_size=200, skip=lambda c_: (F.fns.get(c_) or {}).get("file") != cn["file"])
+        # the vector that becomes the argument-vector field of the returned CliArgs, and what is appended to it, in order
         st = [x for x in H.walk(b) if x.get("k") == "struct" and H.last(x["res"].get("path") or "") in ("CliArgs", "Self")]
         vid = None
         if st:
             for fd in st[-1]["fields"]:
-                if fd["name"] == "args":
+                if fd["name"] == f_argv:
                     vid = H.local_id(H.strip(fd["e"]))
+        lets_n = {x["pat"]["id"]: x["init"] for x in H.walk(b) if x.get("k") == "let" and x.get("pat", {}).get("k") == "bind" and x.get("init") is not None}
+        for _ in range(4):
+            # `let argv = { let mut v = ..; v.push(..); v }`: the vector is the one the block hands out
+            e_ = lets_n.get(vid)
+            while isinstance(e_, dict) and e_.get("k") == "block" and e_.get("expr") is not None:
+                e_ = e_["expr"]
+            if isinstance(e_, dict) and H.is_local(H.strip(e_)) and H.local_id(H.strip(e_)) != vid:
+                vid = H.local_id(H.strip(e_))
+            else:
+                break
         # locals bound to the parsed `script` / `args` fields (field access, or a destructuring pattern)
         field_of = {}
         for x in H.walk(b):
@@ -247,11 +342,13 @@ def run(F, R, tier):
                 "skip_pcap": {"action", "value_parser", "required", "takes_values", "default_value", "long:skip-pcap", "short:s"}}
         for a_, w in want.items():
             R.ob("cli-surface", "argument `%s`" % a_, per.get(a_) == w, "parser settings %s (reference %s)" % (sorted(per.get(a_) or []), sorted(w)), F.loc(au))
+    # (whatever accessor hands the vector to main is read in place by the mode-dispatch rule above; a plain `get_args` is also
+    # checked on its own when there is one)
     ga = F.fn("cliargs::CliArgs::get_args")
-    if R.anchor("CliArgs::get_args", ga):
+    if ga is not None:
         from .lib import decide as D_
         t_ = D_.canon_text(H.body_of(ga))
-        R.ob("argv-provenance", "get_args returns the vector as built", t_ in ("self.args.as_slice()", "self.args", "self.args.as_ref()", "self.args[RangeFull]"), t_, F.loc(ga))
+        R.ob("argv-provenance", "get_args returns the vector as built", t_ in tuple(x_ % f_argv for x_ in ("self.%s.as_slice()", "self.%s", "self.%s.as_ref()", "self.%s[RangeFull]")), t_, F.loc(ga))
     ib = F.fn("init_builtin_vars")
     if R.anchor("init_builtin_vars", ib):
         from .lib import decide as D_
